@@ -1,4 +1,174 @@
-(* props/C07.v — theorem statements (being filled in). *)
-From Coq Require Import List NArith Bool.
+(* props/C07.v — C07: wait() is a true barrier and always returns; shutdown
+   terminates.  ONLY theorem statements about the executable model Buffer.v (the
+   model the correspondence check runs against /repo), each closed by a lemma of
+   BufferWait.v / BufferReturn.v / BufferFlag.v / BufferJoin.v, with
+   Print Assumptions beneath, and non-vacuity Examples at the end.
+
+   Vocabulary.  [trace T evs]: per external event, what the harness observes
+   (FnStart callno set tick / FnEnd callno ok set / WaitRet w tick n / DaemonEnded).
+   [final T evs]: the model state after the events; [seen s] = the producer ids
+   submitted so far (by Submit from the loop's thread, or by the foreign FPut),
+   [wseen s] = the wait ids used so far.  [g_offered (gh s)]: every (producer id,
+   argument) handed to the buffer so far; [ok_sets tr]: the arguments of the
+   calls of tr that returned without error.  Event lists are arbitrary. *)
+From Coq Require Import List Arith NArith Bool.
 Import ListNotations.
-Require Import Aiuti.Buffer.
+Require Import Aiuti.Buffer Aiuti.BufferCore Aiuti.BufferFlag Aiuti.BufferInv Aiuti.BufferJoin
+               Aiuti.BufferQuiet Aiuti.BufferProgress Aiuti.BufferWait Aiuti.BufferReturn Aiuti.Case_Buffer.
+
+(* The barrier.  For EVERY history evs and next event e: if WaitRet w is observed
+   in the macro step of e, then the history contains the (accepted, i.e. live
+   buffer and unused id) event  Wait w c  that called this wait(), and every
+   argument handed to the buffer — at any time up to and including this step —
+   by a producer that had been submitted before that Wait event (own thread:
+   Submit; foreign thread: its FPut) is in a call that returned without error
+   before the end of this step.  (Producers that never produced anything —
+   empty, failed — impose nothing.) *)
+Theorem wait_barrier :
+  forall (T : N) (evs : list event) (e : event) (w : nat) (t : N) (n : nat),
+    In (WaitRet w t n) (snd (step (final T evs) e)) ->
+    exists pre c post,
+      evs ++ [e] = pre ++ Wait w c :: post /\ is_dead (final T pre) = false /\
+      existsb (Nat.eqb w) (wseen (final T pre)) = false /\
+      forall p x, In p (seen (final T pre)) -> In (p, x) (g_offered (gh (final T (evs ++ [e])))) ->
+                  In x (ok_sets (concat (trace T (evs ++ [e])))).
+Proof. exact wait_barrier_lemma. Qed.
+Print Assumptions wait_barrier.
+
+(* Behind it, the completion flag: whenever the event is set at a quiescent point,
+   the daemon is idle, the queue is empty and everything handed to the buffer
+   so far, by any thread, has been delivered in a call that returned without error. *)
+Theorem flag_means_all_delivered :
+  forall (T : N) (evs : list event),
+    let s := final T evs in
+    is_dead s = false -> evset s = true ->
+    dm s = DIdle /\ q s = [] /\ forall x, In x (off (gh s)) -> In x (g_delivered (gh s)).
+Proof. exact flag_means_delivered. Qed.
+Print Assumptions flag_means_all_delivered.
+
+(* ... and the join counter: unfinished (what q.join() waits for) = queued
+   producers + 1 while a producer returned by the timed read is still being
+   loaded; the queue is empty whenever the daemon is parked on q.get(); a task is
+   still inside q.join() only while unfinished > 0. *)
+Theorem join_counter :
+  forall (T : N) (evs : list event),
+    let s := final T evs in
+    is_dead s = false ->
+    unfinished s = length (q s) + extra (dm s) /\
+    (q_empty_stage (dm s) = true -> q s = []) /\
+    (unfinished s = 0 -> forall w, In w (waiters s) -> wstate w = OnEvent).
+Proof. exact join_counter_lemma. Qed.
+Print Assumptions join_counter.
+
+(* wait() returns (progress form).  In every history without a bare foreign
+   event.clear() that is never followed by its put (no FClear; FPut and
+   FnOkThenFClear are allowed): from ANY reachable live state in which the daemon
+   is not parked on a slow producer and every queued producer has ended or
+   failed — e.g. after the script closed the open producers — the continuation
+       FnOk ; Advance d (d >= timeout) ; FnOk
+   ("the function succeeds for the running and the next call, a full timeout
+   passes") makes EVERY task that is inside wait() return: cancel=True and
+   cancel=False alike, however many concurrent waiters, whatever empty / failed
+   producers and failed calls came before. *)
+Theorem wait_returns :
+  forall (T : N) (evs : list event) (d : N),
+    ~ In FClear evs -> (T <= d)%N -> let s := final T evs in
+    is_dead s = false -> parked (dm s) = true -> all_fin (q s) ->
+    forall w0, In w0 (waiters s) ->
+      exists t n, In (WaitRet (wid w0) t n) (concat (snd (run s (tail d)))).
+Proof. exact wait_returns_lemma. Qed.
+Print Assumptions wait_returns.
+
+(* In such histories, whenever the daemon is idle the flag is set and nobody is
+   inside wait(): a wait() on an idle buffer returns in the same step. *)
+Theorem idle_means_flag_set :
+  forall (T : N) (evs : list event),
+    ~ In FClear evs ->
+    let s := final T evs in
+    (dm s = DIdle -> evset s = true) /\ (evset s = true -> waiters s = []).
+Proof. exact final_IE. Qed.
+Print Assumptions idle_means_flag_set.
+
+(* wait(cancel=True) on a buffer whose quiet timer is armed (everything loaded,
+   something to deliver) starts the call in the same macro step, at the current
+   tick — no Advance needed; wait(cancel=False) starts nothing. *)
+Theorem wait_cancel_flushes_now :
+  forall (T : N) (evs : list event) ins d w,
+    let s := final T evs in
+    dm s = DAwait ins d -> ins <> [] -> existsb (Nat.eqb w) (wseen s) = false ->
+    snd (step s (Wait w true)) = [FnStart (callno s) ins (now s)] /\
+    snd (step s (Wait w false)) = [].
+Proof. exact wait_cancel_lemma. Qed.
+Print Assumptions wait_cancel_flushes_now.
+
+(* Shutdown terminates.  Whatever happened before (any stage: idle, gathering,
+   timer armed, loading one producer, function running) and whatever is scripted
+   afterwards: cancelling the daemon task ends it — DaemonEnded is observed in
+   the Shutdown step (or had been, if an earlier Shutdown already ended it) —
+   and NOTHING is observed in any later step: no call of the function, no
+   WaitRet. *)
+Theorem shutdown_terminates :
+  forall (T : N) (evs rest : list event),
+    exists o,
+      trace T (evs ++ Shutdown :: rest) = trace T evs ++ o :: map (fun _ => []) rest /\
+      (o = [DaemonEnded] \/ (o = [] /\ In DaemonEnded (concat (trace T evs)))) /\
+      is_dead (final T (evs ++ [Shutdown])) = true.
+Proof. exact shutdown_lemma. Qed.
+Print Assumptions shutdown_terminates.
+
+(* ---- non-vacuity ---------------------------------------------------------------------- *)
+
+(* barrier: a wait() issued while the function runs, with a submission queued
+   before it: it returns only after the SECOND call (which carries that
+   submission) has succeeded; a later wait() returns with it *)
+Example barrier_example :
+  let evs := [Submit 0 (Plain 1); Advance 8; Submit 1 (Plain 2); Wait 0 false; FnOk; Wait 1 true] in
+  trace 8 (evs ++ [FnOk]) =
+    [[]; [FnStart 0 [1] 8%N]; []; []; [FnEnd 0 true [1]]; [FnStart 1 [2] 8%N];
+     [FnEnd 1 true [2]; WaitRet 0 8%N 2; WaitRet 1 8%N 2]] /\
+  seen (final 8 [Submit 0 (Plain 1); Advance 8; Submit 1 (Plain 2)]) = [0; 1] /\
+  ok_sets (concat (trace 8 (evs ++ [FnOk]))) = [1; 2].
+Proof. vm_compute. repeat split; reflexivity. Qed.
+
+(* wait_returns: three concurrent waiters (cancel and not), an empty producer, a
+   failing awaitable, a slow async producer that is then closed, a failing call *)
+Example wait_returns_example :
+  let evs := [Submit 0 (SyncList []); Wait 0 false; Submit 1 Aw; Submit 2 Async; Wait 1 true; PYield 2 5;
+              PFail 1; Advance 9; Wait 2 false; PEnd 2; FnFail] in
+  let s := final 8 evs in
+  ~ In FClear evs /\ is_dead s = false /\ parked (dm s) = true /\ q s = [] /\
+  map wid (waiters s) = [0; 1; 2] /\
+  concat (snd (run s (tail 8))) =
+    [FnStart 1 [5] 17%N; FnEnd 1 true [5]; WaitRet 0 17%N 1; WaitRet 1 17%N 1; WaitRet 2 17%N 1].
+Proof.
+  vm_compute. split; [intros H; repeat (destruct H as [H|H]; [discriminate|]); exact H|].
+  repeat split; reflexivity.
+Qed.
+
+(* the hypothesis "no bare foreign clear" of wait_returns is needed: after a
+   foreign event.clear() with no put behind it, a wait() legitimately blocks *)
+Example bare_clear_blocks :
+  let evs := [FClear; Wait 0 true] in
+  let s := final 8 evs in
+  dm s = DIdle /\ evset s = false /\ map wid (waiters s) = [0] /\ concat (snd (run s (tail 8))) = [].
+Proof. vm_compute. repeat split; reflexivity. Qed.
+
+(* forced flush *)
+Example flush_example :
+  let s := final 8 [Submit 0 (Plain 1); Advance 3] in
+  dm s = DAwait [1] 8%N /\ snd (step s (Wait 0 true)) = [FnStart 0 [1] 3%N] /\ snd (step s (Wait 0 false)) = [].
+Proof. vm_compute. repeat split; reflexivity. Qed.
+
+(* shutdown at every stage: idle, gathering (slow producer), timer armed,
+   loading one, function running, waiter inside wait() *)
+Example shutdown_stages :
+  let after evs := concat (trace 8 (evs ++ [Shutdown; Advance 100; FnOk; Submit 9 (Plain 9); Advance 100])) in
+  dm (final 8 []) = DIdle /\ after [] = [DaemonEnded] /\
+  (exists i l g, dm (final 8 [Submit 0 Async]) = DGather i l g) /\ after [Submit 0 Async] = [DaemonEnded] /\
+  (exists i d, dm (final 8 [Submit 0 (Plain 1)]) = DAwait i d) /\ after [Submit 0 (Plain 1)] = [DaemonEnded] /\
+  (exists i p, dm (final 8 [Submit 0 (Plain 1); Submit 1 Async]) = DLoadOne i p) /\
+     after [Submit 0 (Plain 1); Submit 1 Async] = [DaemonEnded] /\
+  (exists i, dm (final 8 [Submit 0 (Plain 1); Advance 8]) = DRun i) /\
+     after [Submit 0 (Plain 1); Advance 8] = [FnStart 0 [1] 8%N; DaemonEnded] /\
+  after [Submit 0 (Plain 1); Advance 8; Wait 0 true] = [FnStart 0 [1] 8%N; DaemonEnded].
+Proof. vm_compute. repeat split; try reflexivity; eauto. Qed.
